@@ -11,7 +11,7 @@ from concurrent.futures import ThreadPoolExecutor
 
 VERIF = os.path.dirname(os.path.dirname(os.path.abspath(__file__)))
 REPO = os.environ.get("VERIF_REPO", "/repo")
-BUILD = os.path.join(VERIF, "build")
+BUILD = os.environ.get("VERIF_BUILD", os.path.join(VERIF, "build"))
 HB = os.path.join(BUILD, "h")
 NCPU = int(os.environ.get("VERIF_JOBS", "16"))
 
@@ -114,8 +114,11 @@ def build_harness(name, kind="rc", variant="asan", extra=None, src=None):
 # ------------------------------------------------------------------------------------------------
 # work dirs
 # ------------------------------------------------------------------------------------------------
+WORK = os.environ.get("VERIF_WORK", os.path.join(VERIF, "work"))
+
+
 def workdir(prop):
-    d = os.path.join(VERIF, "work", prop, str(os.getpid()))
+    d = os.path.join(WORK, prop, str(os.getpid()))
     shutil.rmtree(d, ignore_errors=True)
     os.makedirs(d)
     return d
